@@ -19,6 +19,7 @@ import (
 	"github.com/rminnich/go9p"
 	"verif/internal/hx"
 	"verif/internal/ufsrv"
+	"verif/internal/xport"
 )
 
 // FindingReadn is the id of the listed-finding signature for DESIGN D16:
@@ -63,6 +64,12 @@ type Op struct {
 	Off    uint64 `json:"off,omitempty"`
 	Count  uint32 `json:"count,omitempty"`
 	Seed   uint64 `json:"seed,omitempty"`
+	// Fault (readn and written only): "unlink", "rename" (the host file is
+	// removed / renamed) or "cut" (the transport is closed) exactly before the
+	// FaultAt-th Tread / Twrite frame of this call is written by the client.
+	// A fault that fires ends the case. See fault.go.
+	Fault   string `json:"fault,omitempty"`
+	FaultAt int    `json:"fault_at,omitempty"`
 }
 
 type Case struct {
@@ -268,7 +275,8 @@ type runner struct {
 	c      *Case
 	root   string
 	clnt   *go9p.Clnt
-	u      uint64 // iounit of the negotiated msize
+	end    *xport.End // the client's end of the transport
+	u      uint64     // iounit of the negotiated msize
 	nm     uint32
 	models [][]byte
 	hs     []*handle
@@ -423,6 +431,7 @@ func RunCase(c *Case) (err error) {
 		return r.errf("mount failed: %v", e)
 	}
 	r.clnt = clnt
+	r.end = end
 	defer func() {
 		clnt.Unmount()
 		end.Close()
@@ -442,6 +451,11 @@ func RunCase(c *Case) (err error) {
 	for i := range c.Ops {
 		r.opi = i
 		if err := r.step(&c.Ops[i]); err != nil {
+			if err == errFaultFired {
+				// the file or the connection is gone: the case ends here
+				hx.ExtraAdd("ops", int64(r.nops+1))
+				return nil
+			}
 			return err
 		}
 		r.nops++
@@ -663,6 +677,9 @@ func (r *runner) step(o *Op) error {
 		if !canRead(h.mode) {
 			break
 		}
+		if o.Fault != "" {
+			return r.faultStep(o, h)
+		}
 		r.classify(h, o.Kind, o.Off, cnt, l)
 		exp := want(m, o.Off, cnt)
 		buf := make([]byte, o.Count)
@@ -698,6 +715,9 @@ func (r *runner) step(o *Op) error {
 	case "cwrite", "write", "writeat", "written":
 		if !canWrite(h.mode) {
 			break
+		}
+		if o.Fault != "" && o.Kind == "written" && o.Off < 1<<40 {
+			return r.faultStep(o, h)
 		}
 		off := o.Off
 		if o.Kind == "write" {
